@@ -4,7 +4,7 @@ CONSTANTS
   MaxReqs = 3
   Templates = {"o23", "ret", "d3"}
   PatchKinds = {"plain2"}
-  FnLayouts = {"none", "one", "split", "tail"}
+  FnLayouts = {"none", "one", "split", "tail", "one2"}
   EndSyms = {FALSE}
   NoSyms = {FALSE}
   AnnModes = {"none"}
